@@ -25,4 +25,4 @@ For each change i = 1..3:
  1. start from a clean worktree (`git -C /tmp/seed_{pid} checkout -- .`), make the change, save it as {demo}/change{{i}}.diff (`git -C /tmp/seed_{pid} diff > ...`);
  2. write a small standalone demonstration program {demo}/demo{{i}}/main.go (its own module in that directory: `module demo`, `require github.com/libsv/go-bt/v2 v2.0.0`, `replace github.com/libsv/go-bt/v2 => /tmp/seed_{pid}`, `cp /tmp/seed_{pid}/go.sum .`) that exits 0 and prints PASS when the property holds on its concrete input and exits 1 printing FAIL (with the observed vs expected values) when it does not; show that it prints FAIL with the change applied and PASS on the clean worktree;
  3. run the full test suite with the change applied and confirm it passes.
-Finish with the worktree clean (`git checkout -- .`). Final report: for each change: the diff, one paragraph on why it breaks the property and what specific input/sequence is needed to see it, the demo's PASS/FAIL outputs, and the test-suite result.""")
+Do NOT use `git stash` (the stash is shared by all worktrees of the repository and other engineers work in theirs): to flip between the clean and the changed tree use `git diff > f; git checkout -- .; git apply f`. Finish with the worktree clean (`git checkout -- .`). Final report: for each change: the diff, one paragraph on why it breaks the property and what specific input/sequence is needed to see it, the demo's PASS/FAIL outputs, and the test-suite result.""")
